@@ -46,7 +46,9 @@ THEOREMS = ["Cppcheck.Configs.every_region_covered_of_safe", "Cppcheck.Configs.r
             "Cppcheck.Configs.U_in_no_config_D", "Cppcheck.Configs.reach_spec",
             "Cppcheck.Configs.length_getConfigs_le", "Cppcheck.Configs.every_region_analysed_partial",
             "Cppcheck.Configs.every_region_analysed_of_size_partial", "Cppcheck.Configs.every_region_analysed_counterexample",
-            "Cppcheck.Configs.every_region_covered_ndLeaf_partial", "Cppcheck.Configs.live_spec_eq_driver"]
+            "Cppcheck.Configs.every_region_covered_ndLeaf_partial", "Cppcheck.Configs.live_spec_eq_driver",
+            "Cppcheck.Configs.purge_keeps_code_partial", "Cppcheck.Configs.purge_keeps_coverage_partial",
+            "Cppcheck.Configs.purge_loses_region_counterexample"]
 MODULES = ["Cppcheck.Props.C12"]
 
 CPLUSPLUS = "__cplusplus"
@@ -83,7 +85,8 @@ def number(items, ctr=None):
     ctr = ctr if ctr is not None else [0]
     for it in items:
         if it[0] == "r":
-            it[1] = ctr[0]; ctr[0] += 1
+            if it[1] is None:
+                it[1] = ctr[0]; ctr[0] += 1
         else:
             number(it[3], ctr)
             if it[4] is not None:
@@ -267,6 +270,63 @@ def family_tree(rng, size, kinds="ddnDN", p_else=0.45):
     return t
 
 
+def add_twins(rng, items, ctr=None, p=0.6):
+    """give some `#if .. #else .. #endif` conditionals a pair of twin regions (ids 1000+2j / 1000+2j+1): the two branches then
+    hold the same multiset of tokens with the planted finding in a different line (what a duplicate-configuration purge with an
+    order-insensitive hash would collapse)"""
+    ctr = ctr if ctr is not None else [0]
+    for it in items:
+        if it[0] == "c":
+            add_twins(rng, it[3], ctr, p)
+            if it[4] is not None:
+                add_twins(rng, it[4], ctr, p)
+                if rng.random() < p and ctr[0] < 40:
+                    j = ctr[0]; ctr[0] += 1
+                    it[3].insert(rng.randrange(len(it[3]) + 1), ["r", 1000 + 2 * j])
+                    it[4].insert(rng.randrange(len(it[4]) + 1), ["r", 1001 + 2 * j])
+    return items
+
+
+def twin_tree(rng, size=None):
+    names = list(NAMEPOOL)
+    rng.shuffle(names)
+    t = gen_tree(rng, names, [size or rng.choice([1, 2, 3, 4])], 0, "ddnD", 0.8, 0.4)
+    if not conds_with_else(t):
+        t = t + [["c", rng.choice("dnD"), names.pop(), [], []]]
+    ctr = [0]
+    add_twins(rng, t, ctr, 0.8)
+    # and one conditional whose two branches are nothing but the twins (optionally nested): its two configurations hold
+    # exactly the same multiset of tokens
+    j = ctr[0]
+    pure = ["c", rng.choice("ddnD"), names.pop(), [["r", 1000 + 2 * j]], [["r", 1001 + 2 * j]]]
+    if rng.random() < 0.5:
+        pure = ["c", rng.choice("dD"), names.pop(), [["r", None], pure], None]
+    t.insert(rng.randrange(len(t) + 1), pure)
+    return number(t)
+
+
+def region_text(k):
+    """the printer of harness/c12.cpp (regions only), used to rebuild the code of a configuration from its live regions"""
+    if k >= 1000:
+        j = (k - 1000) // 2
+        bad, good = "a[%d]=0;" % (100 + j), "a[0]=0;"
+        return "void p%d(void){int a[2]; %s\n %s}\n" % (j, bad if k % 2 == 0 else good, good if k % 2 == 0 else bad)
+    return "void f%d(void){int a[1]; a[%d]=0;}\n" % (k, k + 1)
+
+
+def line_regions(src):
+    """line number -> region whose planted out-of-bounds write sits in that line"""
+    out = {}
+    for n, line in enumerate(src.split("\n"), 1):
+        m = re.search(r"void f(\d+)\(", line)
+        if m:
+            out[n] = int(m.group(1)); continue
+        m = re.search(r"a\[(1\d\d)\]=0;", line)
+        if m:
+            out[n] = 1000 + 2 * (int(m.group(1)) - 100) + (0 if line.startswith("void p") else 1)
+    return out
+
+
 def gen_defines(rng, ms):
     """userDefines / undefs around the macros of the tree, as cmdlineparser composes them"""
     pool = list(ms) + ["AA", "A", "ZZ", "M1", "B"]
@@ -441,6 +501,74 @@ def detect_flags(res):
     return [fe, fn]
 
 
+HASH_CODE = _norm("""
+    std::string hashData;
+    for (const Token* tok = front(); tok; tok = tok->next()) {
+        hashData += std::to_string(tok->flags());
+        hashData += std::to_string(tok->varId());
+        hashData += std::to_string(tok->tokType());
+        hashData += tok->str();
+        hashData += tok->originalName();
+    }
+    return (std::hash<std::string>{})(hashData);""")
+
+
+def detect_hash_shape(res):
+    """T: TokenList::calculateHash must be one string hash over the concatenation of all tokens' fields (order sensitive by
+    construction); any other shape (e.g. a token-by-token fold) is not recognised => undischarged, the collision search decides"""
+    src = open(os.path.join(core.REPO, "lib", "tokenlist.cpp"), encoding="utf-8", errors="replace").read()
+    m = re.search(r"std::size_t TokenList::calculateHash\(\) const\s*\{(.*?)\n\}", src, re.S)
+    ok = bool(m) and _norm(m.group(1)) == HASH_CODE
+    res.oblig("T:calculateHash-shape", ok, "translation",
+              "" if ok else "TokenList::calculateHash is not the recognised whole-string hash: %s" % (_norm(m.group(1))[:400] if m else "not found"))
+    return ok
+
+
+HASH_TOKENS = ["a", "b", "x", "out", "lo", "hi", "0", "1", "2", "=", ";", "[", "]", "(", ")", "{", "}", "+", "int", "return", "if"]
+
+
+def hash_collisions(ctx, res, exe, config_codes):
+    """P_impl for the duplicate-configuration purge: the real TokenList::calculateHash must separate DIFFERENT token lists:
+    (a) permutations of one another, (b) lists differing by a pair of equal tokens, (c) the configurations of one file."""
+    rng = ctx.rng
+    groups = []          # (class, [token-list texts]) : all members of a group must get pairwise different hashes
+    for _ in range(60):
+        base = [rng.choice(HASH_TOKENS) for _ in range(rng.choice([2, 3, 5, 8, 12]))]
+        perm = list(base)
+        for _ in range(20):
+            rng.shuffle(perm)
+            if perm != base:
+                break
+        if perm != base:
+            groups.append(("permutation", [" ".join(base), " ".join(perm)]))
+        t = rng.choice(HASH_TOKENS)
+        i = rng.randrange(len(base) + 1); j = rng.randrange(len(base) + 2)
+        more = list(base); more.insert(i, t); more.insert(j, t)
+        groups.append(("pair-of-equal-tokens", [" ".join(base), " ".join(more)]))
+    groups.append(("permutation", ["out [ 2 ] = lo ; out [ 0 ] = hi ;", "out [ 0 ] = lo ; out [ 2 ] = hi ;"]))
+    for codes in config_codes:
+        uniq = sorted(set(codes))
+        if len(uniq) > 1:
+            groups.append(("configurations-of-one-file", uniq))
+    texts = sorted(set(x for _, g in groups for x in g))
+    rc, out, err = core.run_lines(exe, [], ["th " + core.hx(x) for x in texts], timeout=600)
+    h = dict(zip(texts, out))
+    bad = []
+    for cls, g in groups:
+        res.count("hash:" + cls)
+        seen = {}
+        for x in g:
+            if h.get(x) in seen and seen[h[x]] != x:
+                bad.append((cls, seen[h[x]], x, h[x]))
+            seen.setdefault(h.get(x), x)
+    res.extra["hash_lists"] = len(texts)
+    for cls, x, y, hv in bad[:6]:
+        report(res, "TokenList::calculateHash gives the same value (%s) for two different token lists (%s): the later configuration would be "
+                    "purged as a duplicate and its code analysed in no configuration\n  %s\n  %s" % (hv, cls, x[:300], y[:300]),
+               dict(kind="hash", cls=cls, a=x, b=y, hash=hv, replay_cmd="./check.py C12 --replay <this file>"), None)
+    return bad
+
+
 _reported = {}
 
 
@@ -537,8 +665,9 @@ def run_cppcheck(ctx, src, args):
     d = os.path.join(ctx.tmp, "cli%d" % ctx.rng.getrandbits(40))
     os.makedirs(d)
     open(os.path.join(d, "x.c"), "wb").write(src)
-    cmd = [ctx.cppcheck, "--template={id}@{message}", "x.c"] + list(args)
+    cmd = [ctx.cppcheck, "--template={id}@{line}@{message}", "x.c"] + list(args)
     rc, o, e = core.sh(cmd, cwd=d, timeout=300)
+    lr = line_regions(src.decode("latin-1"))
     checked = []
     for l in o.split("\n"):
         m = re.match(r"^Checking x\.c: (.*)\.\.\.$", l)
@@ -547,9 +676,9 @@ def run_cppcheck(ctx, src, args):
     regs = set()
     for l in e.split("\n"):
         if l.startswith("arrayIndexOutOfBounds@"):
-            m = IDX.search(l)
-            if m:
-                regs.add(int(m.group(1)) - 1)
+            m = re.match(r"^arrayIndexOutOfBounds@(\d+)@", l)
+            if m and int(m.group(1)) in lr:
+                regs.add(lr[int(m.group(1))])
     return checked, regs, (o + e)
 
 
@@ -671,11 +800,18 @@ def run(ctx, res):
     for i in range(n_fam):
         size = rng.choice([1, 2, 3, 4, 5, 6, 8, 10]) if not thorough else rng.choice([1, 2, 3, 4, 5, 6, 8, 10, 14, 18])
         kinds = rng.choice(["ddnDN", "ddnD", "dn", "dD", "dnDNN"])
-        t = family_tree(rng, size, kinds, rng.choice([0.3, 0.5, 0.7]))
+        t = family_tree(rng, size, kinds, rng.choice([0.3, 0.5, 0.7])) if i % 8 else twin_tree(rng)
         cases.append(dict(words=flatten(t), tree=t, family=True, origin="family"))
         res.count("conds:%d" % min(nconds(t), 12))
     ops, parsed, impl, model = run_gc(ctx, res, exe, drv, cases, "getConfigs-family")
     p_impl_inprocess(ctx, res, cases, parsed, impl)
+    # ---- duplicate-configuration purge: the real hash separates the token lists it is asked to tell apart
+    detect_hash_shape(res)
+    codes = []
+    for c, pr in zip(cases, parsed):
+        if pr and pr[1] is not None:
+            codes.append(["".join(region_text(r) for r in sorted(l)) for l in pr[1]])
+    hash_collisions(ctx, res, exe, codes[:150] if not thorough else codes)
     # the python classifier (known-finding keys) and the Lean predicate `safe` accept the same trees, for every variant
     bad = []
     for fls in ([False, False], [True, False], [True, True]):
@@ -756,6 +892,10 @@ def run(ctx, res):
             elif rng.random() < 0.3:
                 opt["force"] = True
         todo.append((t, opt))
+    for i in range(40 if thorough else 8):       # twin regions: sibling branches that are token permutations of each other
+        todo.append((twin_tree(rng), dict(maxc=rng.choice([64, 64, 3, 0])) if rng.random() < 0.8 else dict(force=True)))
+        if todo[-1][1].get("maxc") == 0:
+            todo[-1] = (todo[-1][0], {})
     for c in load_corpus():
         if c.get("tree") and c.get("expect_lost") is not None:
             todo.append((c["tree"], dict(maxc=64, undefs=c.get("undefs", []))))
@@ -768,6 +908,14 @@ def run(ctx, res):
 def replay(ctx, res, rp):
     drv = ctx.driver("drv_c12")
     exe = ctx.harness("c12")
+    if rp.get("kind") == "hash":
+        rc, out, err = core.run_lines(exe, [], ["th " + core.hx(rp["a"]), "th " + core.hx(rp["b"])])
+        print("token list A: %s\ntoken list B: %s\ncalculateHash: %s / %s" % (rp["a"], rp["b"], out[0], out[1]))
+        fail = out[0] == out[1] and rp["a"].split() != rp["b"].split()
+        if fail:
+            print("VIOLATION property=C12 replay=(replayed) two different token lists hash equal: the later configuration is purged")
+        print("replay: %s" % ("still fails" if fail else "does not fail"))
+        return 1 if fail else 0
     words = rp["words"]
     if rp.get("kind") == "cli":
         args = rp.get("args", [])
